@@ -275,7 +275,9 @@ class Report:
             print("KNOWN-FINDING: property=%s %s" % (self.prop, k))
         if self.violations:
             os.makedirs(os.path.join(VERIF, "replays"), exist_ok=True)
-            for i, (what, replay, no_input) in enumerate(self.violations[:5]):
+            # violations with a concrete failing input first: a broken correspondence is reported only as far as no input was found
+            ordered = sorted(self.violations, key=lambda v: bool(v[2]))
+            for i, (what, replay, no_input) in enumerate(ordered[:5]):
                 path = os.path.join(VERIF, "replays", "%s_%d.json" % (self.prop, i))
                 rp = dict(replay)
                 rp.setdefault("property", self.prop)
